@@ -51,7 +51,7 @@ func plans(c *core.Ctx) []Plan {
 			// one commitment at all / two of three keypers, every interleaving with the gossip packets, one loss per receiver
 			{Name: "n-one", Kind: "n", K: 3, T: 2, Designed: []int{1, 2, 5}, MaxLoss: 1, ProcNet: 99, Sample: 60, Workers: 4, TimeoutS: 400},
 			// two / three commitments in every order at every keyper; a keyper handles a commitment when the network is drained
-			{Name: "n-two-p0", Kind: "n", K: 3, T: 2, Designed: []int{3, 4, 6, 7, 8}, MaxLoss: 1, MaxCDup: 1, ProcNet: 0, Sample: 70, Workers: 4, TimeoutS: 400},
+			{Name: "n-two-p0", Kind: "n", K: 3, T: 2, Designed: []int{3, 4, 6, 7, 8}, MaxLoss: 1, MaxCDup: 0, ProcNet: 0, Sample: 80, Workers: 4, TimeoutS: 400},
 			// two keypers, threshold two: full interleaving of two commitments with the packets, one duplicate
 			{Name: "n-k2", Kind: "n", K: 2, T: 2, Designed: []int{3, 4}, MaxDup: 1, MaxCDup: 1, ProcNet: 99, Sample: 60, Workers: 3, TimeoutS: 400},
 			{Name: "live", Kind: "live", K: 3, T: 2, Designed: []int{9, 3, 7}, MaxLoss: 1, ProcNet: 0, Workers: 3, TimeoutS: 400},
@@ -67,7 +67,7 @@ func plans(c *core.Ctx) []Plan {
 		{Name: "n-one-dup", Kind: "n", K: 3, T: 2, Designed: []int{9}, MaxLoss: 1, MaxDup: 1, MaxCDup: 0, ProcNet: 99, Sample: 250, Workers: 6, TimeoutS: 2400},
 		{Name: "n-two-p0", Kind: "n", K: 3, T: 2, Designed: []int{3, 4, 6, 7, 8}, MaxLoss: 1, MaxCDup: 1, ProcNet: 0, Sample: 400, Workers: 6, TimeoutS: 1500},
 		{Name: "n-two-p1", Kind: "n", K: 3, T: 2, Designed: []int{3, 4, 7}, MaxLoss: 1, ProcNet: 1, Sample: 400, Workers: 6, TimeoutS: 2400},
-		{Name: "n-two-p2", Kind: "n", K: 3, T: 2, Designed: []int{3, 7}, MaxLoss: 1, ProcNet: 2, Sample: 400, Workers: 6, TimeoutS: 2400},
+		{Name: "n-two-p2", Kind: "n", K: 3, T: 2, Designed: []int{7}, MaxLoss: 1, ProcNet: 2, Sample: 400, Workers: 6, TimeoutS: 2400},
 		{Name: "n-two-full", Kind: "n", K: 3, T: 2, Designed: []int{4}, MaxLoss: 1, ProcNet: 99, Sample: 400, Workers: 6, TimeoutS: 2400},
 		{Name: "n-k2", Kind: "n", K: 2, T: 2, Designed: []int{3, 4, 6, 8}, MaxDup: 1, MaxCDup: 1, ProcNet: 99, Sample: 400, Workers: 6, TimeoutS: 1500},
 		{Name: "live", Kind: "live", K: 3, T: 2, Designed: []int{9, 1, 3, 6, 7}, MaxLoss: 1, ProcNet: 0, Workers: 4, TimeoutS: 1500},
